@@ -21,14 +21,30 @@ ASSUMPTIONS = ["CPython ast parser", "bitprov.py transfer functions for & | << >
 DEC = 'nmea2000/decoder.py'
 ENC = 'nmea2000/encoder.py'
 
-def _ret_terms(fn):
-    ex = sym.SymExec(fn).run()
+def _ret_terms(fn, consts=None):
+    ex = sym.SymExec(fn, consts=consts)
+    try:
+        ex.run()
+    except sym.Unsupported as u:
+        raise AnalysisError(f"{fn.name}: {u}")
     rets = [e for e in ex.events if e[0] == 'return']
-    if len(rets) != 1 or rets[0][1]:
-        raise AnalysisError(f"{fn.name}: expected a single unconditional return (branches merged), found {len(rets)}")
-    return ex, rets[0][2]
+    if not rets:
+        raise AnalysisError(f"{fn.name}: no return")
+    # several guarded returns are merged into one ite term (first matching return wins)
+    result = rets[-1][2]
+    for e in reversed(rets[:-1]):
+        g = e[1]
+        cond = g[0] if len(g) == 1 else ('bool', 'and', tuple(g))
+        result = sym.mk_ite(cond, e[2], result)
+    return ex, result
 
 def run(chk, program, tier):
+    try:
+        _run(chk, program, tier)
+    except (B.Top, B.NeedBranch) as t:
+        chk.unknown('ID-PARSE', 'header functions', f"bit provenance gave up: {t}", DEC, 0)
+
+def _run(chk, program, tier):
     chk.rule('ID-PARSE', 'parse(build(x)) = x per bit and per branch')
     chk.rule('ID-BUILD', 'build(parse(id)) = id on all 29 bits; bits 29..31 unused')
     chk.rule('ID-ACT', 'Actisense header integer build/parse inverse')
@@ -36,8 +52,8 @@ def run(chk, program, tier):
     chk.rule('ID-USE', 'each writer builds the identifier of the message it writes, afresh')
     pf = program.fn('decoder', 'NMEA2000Decoder._extract_header')
     bf = program.fn('encoder', 'NMEA2000Encoder._build_header')
-    pex, pret = _ret_terms(pf)
-    bex, bret = _ret_terms(bf)
+    pex, pret = _ret_terms(pf, program.module_consts('decoder'))
+    bex, bret = _ret_terms(bf, program.module_consts('encoder'))
     if pret[0] != 'tuple' or len(pret[1]) != 4:
         raise AnalysisError('_extract_header no longer returns a 4-tuple')
     idp = pex.params[0]
